@@ -1,7 +1,6 @@
 package main
 
 import (
-	"time"
 	"bufio"
 	"bytes"
 	"crypto/sha256"
@@ -11,6 +10,7 @@ import (
 	"io"
 	"math/rand"
 	"sort"
+	"time"
 
 	"pault.ag/go/debian/changelog"
 )
